@@ -188,7 +188,11 @@ def preprocess_tag_block_spacing(text: str) -> str:
         in_code = fence is not None
         fence_match = _code_fence_re.match(line)
         if fence is None:
-            if fence_match:
+            # The info string of a backtick fence cannot contain backticks: such a line is
+            # a paragraph that starts with a code span, not the start of a code block.
+            if fence_match and not (
+                fence_match.group(1)[0] == "`" and "`" in fence_match.group(2)
+            ):
                 fence = fence_match.group(1)
         elif (
             fence_match
